@@ -12,7 +12,7 @@ import algrun
 import exact
 from c12 import gen_specs, run_histories, CRASHES
 
-MODULES = ["CobyqaVerif.Props.C13"]
+MODULES = ["CobyqaVerif.Props.C13", "CobyqaVerif.Props.C12Poised"]
 LEVEL = "proof"
 EPS = algrun.EPS
 TOLF = 1e3
